@@ -48,6 +48,33 @@ proof fn lemma_sum_update_before(b: Seq<Box<[u8]>>, x: Box<[u8]>, k: int, i: int
     if i < b.len() { lemma_sum_update_before(b, x, k, i + 1); }
 }
 
+// replacing the element at position k >= i changes the sum from i by the difference of the lengths
+proof fn lemma_sum_update_at(b: Seq<Box<[u8]>>, x: Box<[u8]>, k: int, i: int)
+    requires 0 <= i <= k < b.len()
+    ensures sum_from(b.update(k, x), i) == sum_from(b, i) - b[k]@.len() + x@.len()
+    decreases k - i
+{
+    if i < k {
+        lemma_sum_update_at(b, x, k, i + 1);
+        assert(b.update(k, x)[i] == b[i]);
+    } else {
+        lemma_sum_update_before(b, x, k, k + 1);
+    }
+}
+
+// a tail of the buffers is no larger than all of them
+proof fn lemma_sum_tail(b: Seq<Box<[u8]>>, i: int)
+    requires 0 <= i
+    ensures sum_from(b, i) <= sum_from(b, 0)
+    decreases i
+{
+    lemma_sum_nonneg(b, i);
+    if i > 0 {
+        lemma_sum_tail(b, i - 1);
+        if i - 1 < b.len() { assert(sum_from(b, i - 1) == b[i - 1]@.len() + sum_from(b, i)); }
+    }
+}
+
 impl EventBatch {
     pub open spec fn wf(&self) -> bool {
         &&& self.index <= self.bufs@.len()
@@ -76,33 +103,5 @@ impl EventBatch {
             r.is_some() ==> r->Some_0@ == self.items()[0]@,
 //@closure 0
     -> (r: &[u8]) ensures r@ == buf@
-//@end
-
-//@extract emitter/file/src/lib.rs / impl EventBatch #1 / fn advance
-//@rules R1 R2
-//@sig
-        requires
-            old(self).wf(),
-            old(self).items().len() > 0,
-        ensures
-            final(self).wf(),
-            final(self).items() =~= old(self).items().drop_first(),
-            final(self).remaining_bytes == old(self).remaining_bytes - old(self).items()[0]@.len(),
-            final(self).index == old(self).index + 1,
-            // only the slot under the cursor changes (it is left empty)
-            final(self).bufs@.len() == old(self).bufs@.len(),
-            forall|j: int| 0 <= j < old(self).bufs@.len() && j != old(self).index ==> final(self).bufs@[j] == old(self).bufs@[j],
-            final(self).bufs@[old(self).index as int]@.len() == 0,
-//@inside-start start
-        let ghost b0 = old(self).bufs@;
-        let ghost i0 = old(self).index as int;
-//@after let advanced
-        proof {
-            assert(advanced == b0[i0]);
-            assert(self.bufs@ =~= b0.update(i0, self.bufs@[i0]));
-            lemma_sum_update_before(b0, self.bufs@[i0], i0, i0 + 1);
-            assert(sum_from(b0, i0) == b0[i0]@.len() + sum_from(b0, i0 + 1));
-            lemma_sum_nonneg(b0, i0 + 1);
-        }
 //@end
 
